@@ -14,7 +14,7 @@
 EXTENDS Integers, Sequences, FiniteSets, TLC, Json
 
 CONSTANTS Keys, W, D, Tables, Kind, Mode, CellMax, CellMin, TotMax, TotMin, Amts, NH, Thr,
-          MaxTrue, MaxDepth, Whos, AllowIllegit, Channels, MaxReloads
+          MaxTrue, MaxDepth, Whos, AllowIllegit, Channels, MaxReloads, Queries
 
 VARIABLES pos, sk, hist, last
 vars == <<pos, sk, hist, last>>
@@ -112,6 +112,9 @@ Ops == {<<"add", w, k, a>> : w \in Whos, k \in Keys, a \in Amts}
        \cup {<<"clear", w, "", 0>> : w \in Whos}
        \cup (IF Kind = "cms" THEN {<<"join", w, "", 0>> : w \in Whos} ELSE {})
        \cup (IF Kind = "cms" THEN {<<"rt", w, c, 0>> : w \in Whos, c \in Channels} ELSE {})   \* export + load: identity
+       \cup (IF Queries THEN {<<"chk", w, k, 0>> : w \in Whos, k \in Keys} ELSE {})
+          \* a query is an ACTION that changes nothing (C19); it is in the history (used with ViewH) because the code may keep state
+          \* across a query - a memo of the last answer, a cached total - that only shows in what happens afterwards
 
 Init == /\ pos \in Tables
         /\ sk = [w \in {"A", "B"} |-> Empty]
@@ -127,6 +130,7 @@ Do(o) == LET w == o[2]  s == sk[w] IN
               [] o[1] = "rt" -> /\ s.rl < MaxReloads
                                 /\ sk' = [sk EXCEPT ![w].rl = @ + 1] /\ last' = [o |-> o, ret |-> NoV]
               [] o[1] = "join" -> sk' = [sk EXCEPT ![w] = JoinS(s, sk[Other(w)])] /\ last' = [o |-> o, ret |-> NoV]
+              [] o[1] = "chk" -> sk' = sk /\ last' = [o |-> o, ret |-> NoV]
          /\ hist' = Append(hist, o)
          /\ UNCHANGED pos
 
